@@ -26,12 +26,18 @@ STRS = [lambda i: "10.%d.%d.9" % (i // 200 + 1, i % 200 + 1),          # IPv4 li
         lambda i: "fd00::%x" % (i + 1)]                                  # IPv6 literal
 
 
+# strings that cannot name a host
+ODD_HOSTS = ["", "[::1]", "a b", "host:80", "-", ".", "a" * 300, "a\x00b", "..", " 10.0.0.1", "[", "]", "[]"]
+
+
 def kind_value(kind, variant, ident, field):
     """A JSON value of the given kind.  `ident` makes hostnames/ports of different hints distinguishable."""
     if kind == "str":
         if field == "hostname":
             return STRS[variant % len(STRS)](ident)
         return ["1.5", "high", "", "nan", "\u0663", "1e400"][(variant * 2 + ident) % 6]
+    if kind == "oddstr":
+        return ODD_HOSTS[(variant * 5 + ident) % len(ODD_HOSTS)]
     if kind == "int":
         if field == "port":
             return 20000 + ident
@@ -238,6 +244,7 @@ def run(prop, tier):
         cov["tlc_configs"]["Hints"] = {"distinct_states": r.distinct, "states_generated": r.generated, "wall_s": round(r.wall, 1),
                                        "cases": len(cases)}
     evaluations = 0
+    odd_logged = 0
     nontrivial = set()
     variants = range(2 if quick else 6)
     for (_, case, must, may) in cases:
@@ -256,6 +263,16 @@ def run(prop, tier):
                     excs, ports = exercise_dilation(hints)
                 else:
                     excs, ports = exercise_transit(hints, receiver=entry.endswith("receiver"))
+                if any(h2["hostname"] == "oddstr" for h in case for h2 in [h] + list(h["sub"] if h["type"] == "relay-v1" and h["subkind"] == "list" else [])):
+                    # a string that cannot name a host may be tried: the attempt then fails inside HostnameEndpoint.connect()
+                    # ("invalid hostname") and the Connector reports the failed attempt in the log - a failed attempt, not
+                    # an exception raised by the handling of the hints (DESIGN 7.3)
+                    # (with nothing else to try, connect() fails with that very failure: there was no transfer to abort)
+                    nothing_else = not expected_ports(case, ids, must)
+                    kept = [(w_, e_) for (w_, e_) in excs if not ((w_ == "logged" or (w_ == "connect-result" and nothing_else))
+                                                                 and isinstance(e_, ValueError) and str(e_).startswith("invalid hostname"))]
+                    odd_logged += len(excs) - len(kept)
+                    excs = kept
                 evaluations += 1
                 nontrivial.add((shape(case), entry))
                 must_ports = expected_ports(case, ids, must)
@@ -280,6 +297,7 @@ def run(prop, tier):
     evaluations += rt
     cov["samples"].append({"abstract_case": cases[10][1], "concrete": Concretiser(0).hint(list(cases[10][1])[0])[0] if cases[10][1] else []})
     cov["samples"].append({"abstract_case": cases[-1][1]})
+    cov["odd_hostname_attempts_failed_and_logged"] = odd_logged
     cov.update(states=r.distinct, transitions=r.generated, traces_validated_against_impl=0,
                evaluations=evaluations, distinct_nontrivial=len(nontrivial), exhaustive=True,
                rule="one case = one abstract hint list enumerated by TLC on Hints.tla x entry point (transit sender / receiver / "
